@@ -94,7 +94,7 @@ ASSUMPTIONS = ["list-valued pre-grouping attributes may be given as lists or tup
                "template list (OTemplates); the model functions are pure, so every call equals its fresh evaluation by construction",
                "the optional `mod` package is not installed (constructor contract / available_backends; coq_case returns None otherwise)"]
 TESTED_NOT_PROVED = []
-LEVEL_TEXT = ("Machine-checked proof (Coq, 37 theorems in coq/props/C13.v, all closed under the global context). Generic part, for every list "
+LEVEL_TEXT = ("Machine-checked proof (Coq, 38 theorems in coq/props/C13.v, all closed under the global context). Generic part, for every list "
               "of items and every decidable test `iso` that is an equivalence, with an iso-invariant pre-grouping attribute as the code reads "
               "it: GraphCluster.iterative_cluster / fit (visited set, comparison with the first member only, attribute pre-filter) gives every "
               "item exactly one class and two items share a class IFF iso (C13_partition; clusters list = rule_to_cluster, a partition of the "
